@@ -562,7 +562,7 @@ fn run_fuzz(ctx: &vcore::Ctx, report: &mut Report, known: &Known, findings: &mut
         report.inconclusive.push(format!("libFuzzer targets not built ({e}); setup: {FUZZ_BUILD_CMD}"));
         return FuzzOutcome { ran: false, notes };
     }
-    let base_runs: u64 = ctx.pick(60_000, 3_000_000);
+    let base_runs: u64 = ctx.pick(60_000, 2_000_000);
     let work = fuzz_dir().join("corpus-work");
     let artifacts_root = fuzz_dir().join("artifacts");
     let mut total_execs = 0u64;
@@ -701,6 +701,11 @@ pub fn run(ctx: &vcore::Ctx) -> ! {
         vcore::finish(ctx, meta(0), report);
     }
 
+    // known unchecked-length findings: thin out the inputs that can only re-trigger them (counted below)
+    let alloc_known = ["payload_decode", "discovery_sedp_pub", "discovery_sedp_sub", "discovery_topic"]
+        .iter()
+        .all(|d| known.matches(&format!("C07:alloc:single-request-over-cap:{d}")) && known.matches(&format!("C07:alloc:peak-over-bound:{d}")));
+    mutate::AVOID_HUGE_LENGTHS.store(alloc_known, std::sync::atomic::Ordering::Relaxed);
     let mut findings = Findings { first: BTreeMap::new() };
     let scale = ctx.pick(1usize, 4);
     let pool = pool::build(ctx.rng_seed("pool"), scale);
@@ -764,7 +769,7 @@ pub fn run(ctx: &vcore::Ctx) -> ! {
 
     // phase 1: systematic sweep (truncation at every offset, every length-like word × boundary values),
     // per family: seeds in round-robin over the family's decoders, smallest first, until the family's budget is used
-    let sweep_budget: usize = ctx.pick(32_000, 400_000);
+    let sweep_budget: usize = ctx.pick(32_000, 300_000);
     let mut batch: Vec<Case> = vec![];
     for fam in 0..7 {
         let fam_budget = sweep_budget * FAMILY_SHARE[fam] / 100;
@@ -815,7 +820,7 @@ pub fn run(ctx: &vcore::Ctx) -> ! {
     let t_phase1 = ctx.t0.elapsed().as_secs_f64();
 
     // phase 2: random structure-aware mutation
-    let random_cases: usize = ctx.pick(85_000, 1_600_000);
+    let random_cases: usize = ctx.pick(85_000, 900_000);
     let mut rng = Src(ctx.rng_seed("mutation"));
     {
         // the stream is derived from the proptest runner seeded for this property (determinism rule)
@@ -894,6 +899,10 @@ pub fn run(ctx: &vcore::Ctx) -> ! {
             shrunk_to: Some(final_bytes.len() as u64),
         });
     }
+    report.stats.extra.insert(
+        "huge_length_draws_replaced_because_known".into(),
+        json!(mutate::AVOIDED.load(std::sync::atomic::Ordering::Relaxed)),
+    );
     let t_end = ctx.t0.elapsed().as_secs_f64();
     report.stats.extra.insert(
         "phase_wall_s".into(),
